@@ -6,6 +6,7 @@ import PgModel.C05Typed
 import PgModel.C05Handles
 import PgModel.C05Dna
 import PgModel.C05Spec
+import PgModel.C05Geno
 import PgGen.C05Sig
 open Pg Pg.C05
 
@@ -408,6 +409,17 @@ def handle (j : J) : J :=
       let (_, outs) := run c [] ops
       .obj [("outs", .arr (outs.map outToJ))]
     | _, _ => bad "store"
+  | some "geno_env" =>
+    let kindJ : Kind → J
+      | .any => .str "any" | .bool => .str "bool" | .int => .str "int" | .str => .str "str"
+      | .list => .str "list" | .dict => .str "dict" | .obj c => .arr [.str "obj", .str (toS c)]
+    .obj [("classes", .arr (genoEnv.classes.map fun (c, fs) =>
+      .arr [.str (toS c), .arr (fs.map fun f =>
+        .obj ([("name", .str (toS f.name)), ("kind", kindJ f.kind), ("noneable", .bool f.noneable),
+               ("frozen", .bool f.frozen)] ++
+              (match f.default with
+               | some d => [("default", treeToJ d)]
+               | none => [])))]))]
   | some "vspec" =>
     let env : ClassEnv := ⟨[]⟩
     let answer (jv : JV) : J :=
